@@ -1,6 +1,7 @@
 package exec
 
 import (
+	"strconv"
 	"fmt"
 	"strings"
 
@@ -140,6 +141,79 @@ func init() {
 			end--
 		}
 		return in.mkStr(bs[start:end])
+	}
+	// strings.IndexAny / ContainsAny: concrete text by the library itself; symbolic bytes are
+	// classified one by one (ASCII sets only); the text of an integer leaf of an abstract JSON
+	// document consists of digits and possibly a minus sign.
+	indexAny := func(in *Interp, s Str, chars Str) int {
+		if !chars.IsConc() {
+			in.unsupported("strings.IndexAny with a symbolic character set")
+		}
+		if s.IsConc() {
+			return strings.IndexAny(s.S, chars.S)
+		}
+		for i := 0; i < len(chars.S); i++ {
+			if chars.S[i] >= 0x80 {
+				in.unsupported("strings.IndexAny with a non-ASCII character set on symbolic text")
+			}
+		}
+		if s.Opq != nil {
+			if s.Opq.JSON != nil && s.Opq.JSON.Kind == JNumVal && !strings.ContainsAny(chars.S, "-0123456789") {
+				return -1
+			}
+			in.unsupported("strings.IndexAny on opaque text (%s)", s.Opq.What)
+		}
+		c := in.Ctx
+		for i, b := range in.strBytes(s) {
+			hit := c.F
+			for k := 0; k < len(chars.S); k++ {
+				hit = c.Or(hit, c.Eq(b, c.BV(8, uint64(chars.S[k]))))
+			}
+			if in.Path.Branch(hit) {
+				return i
+			}
+		}
+		return -1
+	}
+	intrinsics["strings.IndexAny"] = func(in *Interp, fr *frame, call *ssa.CallCommon, args []Value) Value {
+		return in.Ctx.BV(64, uint64(int64(indexAny(in, args[0].(Str), args[1].(Str)))))
+	}
+	intrinsics["strings.ContainsAny"] = func(in *Interp, fr *frame, call *ssa.CallCommon, args []Value) Value {
+		return in.Ctx.Bool(indexAny(in, args[0].(Str), args[1].(Str)) >= 0)
+	}
+	// floating-point text conversions: concrete values only (floats are never symbolic here)
+	intrinsics["strconv.ParseFloat"] = func(in *Interp, fr *frame, call *ssa.CallCommon, args []Value) Value {
+		s := args[0].(Str)
+		bits := term(args[1])
+		if !s.IsConc() || !bits.IsConst() {
+			in.unsupported("strconv.ParseFloat of symbolic text")
+		}
+		f, err := strconv.ParseFloat(s.S, int(bits.Val))
+		if err != nil {
+			return Tuple{f, in.newError(Str{S: err.Error()})}
+		}
+		return Tuple{f, Iface{}}
+	}
+	intrinsics["strconv.FormatFloat"] = func(in *Interp, fr *frame, call *ssa.CallCommon, args []Value) Value {
+		f, ok := args[0].(float64)
+		if !ok || !term(args[1]).IsConst() || !term(args[2]).IsConst() || !term(args[3]).IsConst() {
+			in.unsupported("strconv.FormatFloat of a number that is not a concrete float")
+		}
+		return Str{S: strconv.FormatFloat(f, byte(term(args[1]).Val), int(term(args[2]).Int()), int(term(args[3]).Val))}
+	}
+	intrinsics["strconv.AppendFloat"] = func(in *Interp, fr *frame, call *ssa.CallCommon, args []Value) Value {
+		dst := args[0].(Slice)
+		f, ok := args[1].(float64)
+		if !ok || dst.JSON != nil || !term(args[2]).IsConst() || !term(args[3]).IsConst() || !term(args[4]).IsConst() {
+			in.unsupported("strconv.AppendFloat of a number that is not a concrete float")
+		}
+		txt := strconv.FormatFloat(f, byte(term(args[2]).Val), int(term(args[3]).Int()), int(term(args[4]).Val))
+		back := make([]Value, 0, dst.Len+len(txt))
+		back = append(back, dst.Back[:dst.Len]...)
+		for i := 0; i < len(txt); i++ {
+			back = append(back, in.Ctx.BV(8, uint64(txt[i])))
+		}
+		return Slice{Back: back, Len: len(back)}
 	}
 	intrinsics["strconv.Itoa"] = func(in *Interp, fr *frame, call *ssa.CallCommon, args []Value) Value {
 		return in.decimalOf(term(args[0]), true)
